@@ -190,6 +190,7 @@ func main() {
 	genCapture()
 	genH2Fp()
 	genProxy()
+	genJA4()
 	facts["issues"] = issues
 	keys := make([]string, 0, len(facts))
 	for k := range facts {
